@@ -210,6 +210,9 @@ func checkC28(r *ev.Run) {
 		}
 		rr := rng.New(r.Seed, "C28", si)
 		p, _ := buildMxPlanFocus(rr, perScript, 5, 3, "apps", nil)
+		if si%2 == 1 {
+			p.B.Gen.AppMaxChains = 1 // every two-chain request (first stake or edit) is over the limit
+		}
 		res, err := p.run(r, si)
 		if err != nil || res.TimedOut {
 			r.Inconclusive(fmt.Sprintf("script %d: %v", si, err))
@@ -284,9 +287,26 @@ func judgeApp(r *ev.Run, si int, c *txCase) {
 		}
 		return
 	}
+	// whatever the kind of stake request (first stake or edit): an accepted one must not leave a staked record with more
+	// chains than the maximum or less than the minimum stake
+	if c.Res.Code == 0 && has && Q.Status == monitor.Staked {
+		maxChains, _ := monitor.ParamInt(c.Pre, "application/MaximumChains")
+		minStake, _ := monitor.ParamInt(c.Pre, "application/ApplicationStakeMinimum")
+		if maxChains > 0 && int64(len(Q.Chains)) > maxChains {
+			kind := "first-stake"
+			if had && P.Status != monitor.Unstaked {
+				kind = "edit-stake"
+			}
+			r.Violation("stake/staked-with-too-many-chains/"+kind, fmt.Sprintf("script %d h=%d tx=%d application %s (%s) is staked for %d chains %v after an accepted stake request; the maximum is %d", si, c.H, c.I, a, kind, len(Q.Chains), Q.Chains, maxChains), w())
+		}
+		if t, ok := new(big.Int).SetString(Q.Tokens, 10); ok && minStake > 0 && t.Cmp(big.NewInt(minStake)) < 0 {
+			r.Violation("stake/staked-below-minimum", fmt.Sprintf("script %d h=%d tx=%d application %s is staked with %s after an accepted stake request; the minimum is %d", si, c.H, c.I, a, Q.Tokens, minStake), w())
+		}
+		r.Count(fmt.Sprintf("accepted_app_stakes_with_%d_chains(max %d)", len(Q.Chains), maxChains), 1)
+	}
 	// stake of a new (or fully unstaked) application
 	if had && P.Status != monitor.Unstaked {
-		return // edit of an existing application: C23
+		return // edit of an existing application: the amount rules are C23's
 	}
 	desc := fmt.Sprintf("script %d h=%d tx=%d application stake %s value %s chains %v signed by %s (relation %s): code=%d; staked apps before %d, MaxApplications %d", si, c.H, c.I, a, m.Value, m.Chains, signer, c.Labels["relation"], c.Res.Code, staked, maxApps)
 	r.Case(fmt.Sprintf("stake/%s/%s/limit-reached=%v", c.Labels["relation"], out, int64(staked) >= maxApps), true)
